@@ -33,6 +33,29 @@ OPEN = [
      'a redesign of the bits default in both the IR and the template',
      'OBJECT-TYPE SYNTAX BITS { a(0), b(1) } DEFVAL { { a, b } }: JSON default record has keys basetype/format/value '
      'at top level; PySnmpCodeGen raises PySmiCodegenError (Jinja: no attribute default)'),
+    ('C03', 'C03.R6', 'transOpers-siblings',
+     'F21: SymtableCodeGen.transOpers prefixes Python keywords with pysmi_, IntermediateCodeGen.transOpers does '
+     'not: a symbol named `global`/`class`/... is in the symbol table as pysmi_global and generated as global, so '
+     'the module fails with "No generated code for symbol pysmi_global"; not repaired: choosing the spelling '
+     'changes generated identifiers and the pysnmp template',
+     'module with `global OBJECT IDENTIFIER ::= { enterprises 9 }` -> PySmiCodegenError'),
+    ('C03', 'C03.R7', 'IntermediateCodeGen.genTableIndex/dict-key object',
+     'F22: the SMIv1 INDEX { INTEGER } path (genFakeSyms) is unfinished: it builds a dict keyed by the builtin '
+     '`object`, returns it where a pair is unpacked, and the fake column symbols are never registered; an SMIv1 '
+     'module with a type-valued INDEX fails with "No generated code for symbol pysmiFakeCol1000"',
+     'SMIv1 row with INDEX { INTEGER } -> PySmiCodegenError'),
+    ('C06', 'C06.R1', 'IntermediateCodeGen.genDefVal/symbolTable[m]<-defval',
+     'F25: a DEFVAL label is looked up as written (with hyphens) in tables keyed by normalised names, so a valid `DEFVAL { d-root }` on an OBJECT IDENTIFIER object is rejected (enum labels are unaffected: they are compared with the enumeration); not repaired: normalising the label also changes how enum/bit labels containing hyphens are matched',
+     'module D-MIB: `d-root OBJECT IDENTIFIER ::= { enterprises 6 }` and `dObj OBJECT-TYPE SYNTAX OBJECT IDENTIFIER ... DEFVAL { d-root }` -> PySmiSemanticError unknown type ... for defval d-root'),
+    ('C06', 'C06.R1', 'IntermediateCodeGen.genDefVal/_importMap<-defval',
+     'F25: a DEFVAL label is looked up as written (with hyphens) in tables keyed by normalised names, so a valid `DEFVAL { d-root }` on an OBJECT IDENTIFIER object is rejected (enum labels are unaffected: they are compared with the enumeration); not repaired: normalising the label also changes how enum/bit labels containing hyphens are matched',
+     'module D-MIB: `d-root OBJECT IDENTIFIER ::= { enterprises 6 }` and `dObj OBJECT-TYPE SYNTAX OBJECT IDENTIFIER ... DEFVAL { d-root }` -> PySmiSemanticError unknown type ... for defval d-root'),
+    ('C06', 'C06.R1', 'SymtableCodeGen.genDefVal/_out<-defval',
+     'F25: a DEFVAL label is looked up as written (with hyphens) in tables keyed by normalised names, so a valid `DEFVAL { d-root }` on an OBJECT IDENTIFIER object is rejected (enum labels are unaffected: they are compared with the enumeration); not repaired: normalising the label also changes how enum/bit labels containing hyphens are matched',
+     'module D-MIB: `d-root OBJECT IDENTIFIER ::= { enterprises 6 }` and `dObj OBJECT-TYPE SYNTAX OBJECT IDENTIFIER ... DEFVAL { d-root }` -> PySmiSemanticError unknown type ... for defval d-root'),
+    ('C06', 'C06.R1', 'SymtableCodeGen.genDefVal/_importMap<-defval',
+     'F25: a DEFVAL label is looked up as written (with hyphens) in tables keyed by normalised names, so a valid `DEFVAL { d-root }` on an OBJECT IDENTIFIER object is rejected (enum labels are unaffected: they are compared with the enumeration); not repaired: normalising the label also changes how enum/bit labels containing hyphens are matched',
+     'module D-MIB: `d-root OBJECT IDENTIFIER ::= { enterprises 6 }` and `dObj OBJECT-TYPE SYNTAX OBJECT IDENTIFIER ... DEFVAL { d-root }` -> PySmiSemanticError unknown type ... for defval d-root'),
 ]
 
 # (property, commit, what failed, rule that reports it on the pre-fix tree)
